@@ -179,29 +179,39 @@ func Verif_C09_capacity() {
 		outstanding--
 		verifAssert(as.flying == int64(outstanding), "in-flight equals admitted minus completed")
 	}
-	// move into a fresh second so every written bucket is complete, then compare
-	verifClock += time.Second
-	cur++
-	wantMax := int64(1)
-	wantMinRt := int64(1000)
-	for e := cur - 2; e < cur; e++ { // the last size-1 = 2 complete buckets (current one ignored)
-		if e < 0 || e >= len(hist) {
-			continue
-		}
-		b := hist[e]
-		if b.pass > wantMax {
-			wantMax = b.pass
-		}
-		if b.cnt > 0 {
-			avg := (2*b.rtSum + b.cnt) / (2 * b.cnt) // round half up of rtSum/cnt (non-negative)
-			if avg < wantMinRt {
-				wantMinRt = avg
+	// compare twice: while the bucket written last is still the current one (it
+	// must not count: the window "ignores the current bucket" for passes AND for
+	// latencies), and again from a fresh second, when every written bucket is complete
+	compare := func(when string) {
+		wantMax := int64(1)
+		wantMinRt := int64(1000)
+		for e := cur - 2; e < cur; e++ { // the last size-1 = 2 complete buckets (current one ignored)
+			if e < 0 || e >= len(hist) {
+				continue
+			}
+			b := hist[e]
+			if b.pass > wantMax {
+				wantMax = b.pass
+			}
+			if b.cnt > 0 {
+				avg := (2*b.rtSum + b.cnt) / (2 * b.cnt) // round half up of rtSum/cnt (non-negative)
+				if avg < wantMinRt {
+					wantMinRt = avg
+				}
 			}
 		}
+		verifAssert(as.maxPass() == int64(wantMax), "maxPass is max(1, largest pass count of a complete bucket in the window) "+when)
+		rt := as.minRt()
+		verifAssert(rt == float64(wantMinRt), "minRt is min(1000, smallest rounded average latency of a non-empty complete bucket in the window) "+when)
 	}
-	verifAssert(as.maxPass() == int64(wantMax), "maxPass is max(1, largest pass count of a complete bucket in the window)")
-	rt := as.minRt()
-	verifAssert(rt == float64(wantMinRt), "minRt is min(1000, smallest rounded average latency of a non-empty complete bucket in the window)")
+	compare("(current bucket still filling)")
+	if hist[cur].cnt > 0 {
+		verifReach("current-bucket-nonempty")
+	}
+	verifClock += time.Second
+	cur++
+	hist = append(hist, bucket{})
+	compare("(all written buckets complete)")
 	verifAssert(as.flying == 0, "in-flight count is zero once every admitted request has reported")
 	verifReach("capacity")
 }
